@@ -94,4 +94,47 @@ theorem rationalReconstruction_inv (s h : Int) (q : Q)
   obtain ⟨hd, hv⟩ := Q.new_value hnew
   exact ⟨n, d, hd, hdvd, hv⟩
 
+/-- for `0 ≤ s ≤ h` the `while` loop exits within its fuel, never divides by zero and never
+    builds a fraction with zero denominator (`u1` strictly decreases and stays `≤ u`, so every
+    quotient is `≥ 1` and `v1 ≥ 1`).  (For `s > h = 1` the Rust function would reach
+    `BigRational::new(_, 0)`; the solver only calls it with `s < h`.) -/
+theorem ratRecLoop_total (h : Int) (hh : 0 ≤ h) :
+    ∀ (fuel : Nat) (u u1 v v1 sign : Int), 0 ≤ u1 → u1 ≤ u → 0 ≤ v → 1 ≤ v1 → u1 < fuel →
+      ∃ q, ratRecLoop h fuel u u1 v v1 sign = .ok q := by
+  intro fuel
+  induction fuel with
+  | zero => intro u u1 v v1 sign h1 _ _ _ hf; omega
+  | succ f ih =>
+    intro u u1 v v1 sign hu1 hle hv hv1 hf
+    unfold ratRecLoop
+    have hu : 0 ≤ u := by omega
+    split
+    · rename_i hgt
+      have hne : u1 ≠ 0 := by
+        intro h0; subst h0; simp at hgt; omega
+      simp only [hne, if_false]
+      have hpos : 0 < u1 := by omega
+      have hq : 1 ≤ u.tdiv u1 := by
+        rw [Int.tdiv_eq_ediv_of_nonneg hu]
+        exact Int.le_ediv_of_mul_le hpos (by omega)
+      have hm : u.tmod u1 = u % u1 := Int.tmod_eq_emod_of_nonneg hu
+      have hm0 : 0 ≤ u % u1 := Int.emod_nonneg _ hne
+      have hm1 : u % u1 < u1 := Int.emod_lt_of_pos _ hpos
+      apply ih
+      · rw [hm]; exact hm0
+      · rw [hm]; omega
+      · omega
+      · have : 1 * 1 ≤ u.tdiv u1 * v1 := mul_le_mul hq hv1 (by norm_num) (by omega)
+        omega
+      · rw [hm]; omega
+    · unfold Q.new
+      have : v1 ≠ 0 := by omega
+      simp only [this, if_false]
+      split <;> exact ⟨_, rfl⟩
+
+theorem rationalReconstruction_total (s h : Int) (hs : 0 ≤ s) (hsh : s ≤ h) :
+    ∃ q, rationalReconstruction s h = .ok q := by
+  unfold rationalReconstruction
+  exact ratRecLoop_total h (by omega) _ h s 0 1 1 hs hsh (le_refl _) (le_refl _) (by omega)
+
 end DSymVerif.LA
